@@ -181,7 +181,7 @@ class DataChunk(Chunk):
 
     def __init__(self, flags: int = 0, body: Optional[bytes] = None) -> None:
         self.flags = flags
-        if body:
+        if body is not None:
             (self.tsn, self.stream_id, self.stream_seq, self.protocol) = unpack_from(
                 "!LHHL", body
             )
@@ -229,7 +229,7 @@ class ForwardTsnChunk(Chunk):
     def __init__(self, flags: int = 0, body: Optional[bytes] = None) -> None:
         self.flags = flags
         self.streams: list[tuple[int, int]] = []
-        if body:
+        if body is not None:
             self.cumulative_tsn = unpack_from("!L", body, 0)[0]
             pos = 4
             while pos < len(body):
@@ -265,7 +265,7 @@ class HeartbeatAckChunk(BaseParamsChunk):
 class BaseInitChunk(Chunk):
     def __init__(self, flags: int = 0, body: Optional[bytes] = None) -> None:
         self.flags = flags
-        if body:
+        if body is not None:
             (
                 self.initiate_tag,
                 self.advertised_rwnd,
@@ -315,7 +315,7 @@ class SackChunk(Chunk):
         self.flags = flags
         self.gaps = []
         self.duplicates = []
-        if body:
+        if body is not None:
             (
                 self.cumulative_tsn,
                 self.advertised_rwnd,
@@ -363,7 +363,7 @@ class ShutdownChunk(Chunk):
 
     def __init__(self, flags: int = 0, body: Optional[bytes] = None) -> None:
         self.flags = flags
-        if body:
+        if body is not None:
             self.cumulative_tsn = unpack_from("!L", body)[0]
         else:
             self.cumulative_tsn = 0
